@@ -379,12 +379,16 @@ def evaluate(fmt, case):
 
 
 def _eval_task(arg):
+    import time
     fmt, case = arg
     P.note(json.dumps(case))
+    t0 = time.process_time()
     try:
-        return evaluate(fmt, case)
+        r = evaluate(fmt, case)
     except MemoryError:
-        return {"fails": [], "outcome": "harness-memory", "harness": f"MemoryError in the harness while building / judging {case}"}
+        r = {"fails": [], "outcome": "harness-memory", "harness": f"MemoryError in the harness while building / judging {case}"}
+    r["cpu_total"] = round(time.process_time() - t0, 2)
+    return r
 
 
 _POOL = []
@@ -404,14 +408,34 @@ def _killed_failure(case, why):
     return [("harness", f"worker {why} while running {case}")]
 
 
-def reexec(fmt, case):
-    """re-runs one case in a sandboxed worker (RLIMIT_AS 3 GiB, wall-clock kill): a bomb must not take the master down"""
-    st, res, _ = _pool().map(MOD, "_eval_task", [(fmt, case)], hard_timeout=HARD_WALL)[0]
+_FRESH: dict = {}      # key -> results of the executions made after the sweep for the double replay of every failing case
+_SWEEP: dict = {}      # key -> result of the sweep (serves the shrink candidates: they are cases of the same lattice)
+
+
+def _key(fmt, case):
+    return json.dumps([fmt, case], sort_keys=True)
+
+
+def _as_fails(case, st, res):
     if st == "killed":
         return _killed_failure(case, res)
     if st != "done":
         return [("harness", str(res)[-500:])]
     return [tuple(x) for x in res["fails"]]
+
+
+def reexec(fmt, case):
+    """Re-runs one case in a sandboxed worker (RLIMIT_AS 3 GiB, wall-clock kill): a bomb must not take the master down.
+    During triage of a sweep the answers come from executions that run() has already made on the real code: two fresh executions
+    of every failing case (made in parallel after the sweep, for the 'replay twice' rule), then the sweep's own result (shrink
+    candidates are cases of the same lattice).  A stand-alone replay (./check C12 --replay f) always executes."""
+    k = _key(fmt, case)
+    if _FRESH.get(k):
+        return _FRESH[k].pop(0)
+    if k in _SWEEP:
+        return _SWEEP[k]
+    st, res, _ = _pool().map(MOD, "_eval_task", [(fmt, case)], hard_timeout=HARD_WALL)[0]
+    return _as_fails(case, st, res)
 
 
 def fmt_of(case):
@@ -493,7 +517,11 @@ def run(ctx):
     fails, outcomes, per_part = [], {}, {}
     fx = []
     amp_over = {}
+    slow = []
     for (fmt, case), (st, r, _note) in zip(args, res):
+        _SWEEP[_key(fmt, case)] = _as_fails(case, st, r)
+        if st == "done":
+            slow.append((r.get("cpu_total", 0), json.dumps(case, sort_keys=True)))
         part = case.get("k", "amp")
         per_part[part] = per_part.get(part, 0) + 1
         if st == "killed":
@@ -517,6 +545,13 @@ def run(ctx):
             fx.append(r["info"])
         if part == "amp" and r["fails"]:
             amp_over.setdefault(case["t"], []).append(case["n"])
+    # the double replay of every failing case, in parallel (triage asks for it case by case)
+    failing = sorted({_key(f[1], f[2]) for f in fails})
+    rargs = [tuple(json.loads(k)) for k in failing for _i in (0, 1)]
+    rres = P.run_all(MOD, "_eval_task", rargs, n=ctx.ncpu, hard_timeout=HARD_WALL, env={"VERIF_SEED": str(ctx.seed)}) if rargs else []
+    for (fmt, case), (st, r, _note) in zip(rargs, rres):
+        _FRESH.setdefault(_key(fmt, case), []).append(_as_fails(case, st, r))
+    slow.sort(reverse=True)
     fx_ev = max(fx, key=lambda i: i["ev_per_byte"]) if fx else None
     fx_pk = max((i for i in fx if i["peak_per_byte"] is not None), key=lambda i: i["peak_per_byte"], default=None)
     fx_abs_ev = max(fx, key=lambda i: i["events"]) if fx else None
@@ -542,6 +577,7 @@ def run(ctx):
                               "max_peak_per_byte": fx_pk and {"p": fx_pk["p"], "value": fx_pk["peak_per_byte"], "size": fx_pk["size"]},
                               "max_events": fx_abs_ev and {"p": fx_abs_ev["p"], "value": fx_abs_ev["events"], "size": fx_abs_ev["size"]},
                               "max_peak": fx_abs_pk and {"p": fx_abs_pk["p"], "value": fx_abs_pk["peak"], "size": fx_abs_pk["size"]}},
+           "slowest_cases_cpu_s": [{"cpu": c, "case": json.loads(k)} for c, k in slow[:12]],
            "over_budget_magnitudes": {k: sorted(v) for k, v in sorted(amp_over.items())},
            "bounds": {"tier": ctx.tier, "lattices": {k: v[0 if ctx.quick else 1] for k, v in T.MAGS.items()}}}
     assumptions = [
